@@ -20,6 +20,7 @@ import (
 	"os"
 	"os/exec"
 	"path/filepath"
+	"regexp"
 	"runtime"
 	"sort"
 	"strconv"
@@ -28,12 +29,25 @@ import (
 	"time"
 )
 
-const (
-	verifDir = "/verif"
-	goBin    = "go1.26.8"
-)
+const goBin = "go1.26.8"
+
+// verifDir is the directory holding sim/, weave/, evidence/ ...: the working
+// directory the commands are started from (cwd=/verif by contract; a snapshot of
+// /verif when started through `vp run`).
+var verifDir = func() string {
+	if wd, err := os.Getwd(); err == nil {
+		if _, err := os.Stat(filepath.Join(wd, "sim", "sched.go")); err == nil {
+			return wd
+		}
+	}
+	return "/verif"
+}()
 
 var repoDir = "/repo"
+
+// outDir is where evidence/ and replays/ are written (VERIF_OUT_DIR redirects it
+// for self-tests against scratch trees, so that committed evidence is untouched).
+var outDir = verifDir
 
 func goEnv() []string {
 	env := os.Environ()
@@ -164,7 +178,7 @@ func doBuild(withRace bool) *build {
 		}
 	}
 	woven := filepath.Join(tmp, "woven")
-	if out, err := run(verifDir, weave, "-repo", repoDir, "-out", woven); err != nil {
+	if out, err := run(verifDir, weave, "-repo", repoDir, "-as", "/repo", "-out", woven); err != nil {
 		os.RemoveAll(tmp)
 		fatal2("weaving failed: %v\n%s", err, out)
 	}
@@ -215,6 +229,7 @@ type replayFile struct {
 	TreeHash  string         `json:"tree_hash"`
 	Race      bool           `json:"race_build"`
 	Count     int            `json:"occurrences_in_worker"`
+	Crash     bool           `json:"process_crash"`
 }
 
 type workerResult struct {
@@ -286,6 +301,23 @@ func runWorker(bin string, j job, gomaxprocs int, tmp string, tag string) (*work
 	}
 	b, err := os.ReadFile(j.Out)
 	if err != nil {
+		// the process died: if it was exploring, the progress file names the case
+		if pb, perr := os.ReadFile(j.Out + ".progress"); perr == nil && j.Mode == "explore" {
+			r := &workerResult{Property: j.Property, Worker: j.Worker, FaultFired: map[string]int{}}
+			if part, e := os.ReadFile(j.Out + ".partial"); e == nil {
+				_ = json.Unmarshal(part, r)
+			}
+			idx, _ := strconv.Atoi(strings.TrimSpace(string(pb)))
+			first := firstFatal(outb.String())
+			r.Violations = append(r.Violations, replayFile{Property: j.Property, Invariant: "no-crash", Signature: "process-crash " + first,
+				Message: fmt.Sprintf("the worker process died while executing case %d (seed %d): %s", idx, j.Seed, first), Seed: j.Seed, Case: idx, Tape: []int{},
+				Desc: fmt.Sprintf("case %d of seed %d", idx, j.Seed), Detail: map[string]any{"output_tail": tail(outb.String(), 60), "sub": j.Sub}, TreeHash: j.TreeHash, Race: j.Sub == "race", Count: 1, Crash: true})
+			if r.FaultFired == nil {
+				r.FaultFired = map[string]int{}
+			}
+			r.FaultFired["worker-process-crash"]++
+			return r, outb.String(), nil
+		}
 		return nil, outb.String(), fmt.Errorf("worker %d produced no result (%v, exit: %v)", j.Worker, err, werr)
 	}
 	var r workerResult
@@ -293,6 +325,23 @@ func runWorker(bin string, j job, gomaxprocs int, tmp string, tag string) (*work
 		return nil, outb.String(), err
 	}
 	return &r, outb.String(), nil
+}
+
+var hexRe = regexp.MustCompile(`0x[0-9a-fA-F]+`)
+
+// firstFatal extracts and normalises the reason of a process death.
+func firstFatal(out string) string {
+	for _, l := range strings.Split(out, "\n") {
+		l = strings.TrimSpace(l)
+		if strings.HasPrefix(l, "fatal error:") || strings.HasPrefix(l, "panic:") || strings.HasPrefix(l, "runtime:") || strings.HasPrefix(l, "SIGSEGV") {
+			l = hexRe.ReplaceAllString(l, "0x?")
+			if len(l) > 120 {
+				l = l[:120]
+			}
+			return l
+		}
+	}
+	return "unknown reason"
 }
 
 func sigHash(s string) string {
@@ -466,8 +515,8 @@ func check(id, tier string, seed uint64, cases int, budget float64, workers int)
 		}
 		return nil
 	}
-	os.MkdirAll(filepath.Join(verifDir, "replays"), 0o755)
-	if old, _ := filepath.Glob(filepath.Join(verifDir, "replays", id+"-*.json")); len(old) > 0 {
+	os.MkdirAll(filepath.Join(outDir, "replays"), 0o755)
+	if old, _ := filepath.Glob(filepath.Join(outDir, "replays", id+"-*.json")); len(old) > 0 {
 		for _, f := range old {
 			os.Remove(f)
 		}
@@ -483,7 +532,7 @@ func check(id, tier string, seed uint64, cases int, budget float64, workers int)
 			continue
 		}
 		violations++
-		path := filepath.Join(verifDir, "replays", fmt.Sprintf("%s-%s.json", id, sigHash(sig)))
+		path := filepath.Join(outDir, "replays", fmt.Sprintf("%s-%s.json", id, sigHash(sig)))
 		jb, _ := json.MarshalIndent(v, "", " ")
 		os.WriteFile(path, jb, 0o644)
 		fmt.Printf("VIOLATION property=%s replay=%s\n", id, path)
@@ -545,9 +594,9 @@ func check(id, tier string, seed uint64, cases int, budget float64, workers int)
 		"harness_trouble": trouble,
 	}
 	ev["coverage"] = cov
-	os.MkdirAll(filepath.Join(verifDir, "evidence"), 0o755)
+	os.MkdirAll(filepath.Join(outDir, "evidence"), 0o755)
 	eb, _ := json.MarshalIndent(ev, "", " ")
-	if err := os.WriteFile(filepath.Join(verifDir, "evidence", id+".json"), eb, 0o644); err != nil {
+	if err := os.WriteFile(filepath.Join(outDir, "evidence", id+".json"), eb, 0o644); err != nil {
 		fatal2("writing evidence: %v", err)
 	}
 	fmt.Printf("verifctl: %d runs (%d cases, %d non-trivial, %d distinct interleavings, %d inconclusive) in %.1fs; %d known findings seen, %d new violations\n",
@@ -612,6 +661,25 @@ func replay(path string) int {
 	}
 	abs, _ := filepath.Abs(path)
 	j := job{Property: rf.Property, Mode: "replay", Replay: abs, BudgetS: 120, TreeHash: treeHash()}
+	if rf.Crash {
+		// re-execute exactly the case that killed the worker
+		j = job{Property: rf.Property, Tier: "quick", Mode: "explore", Seed: rf.Seed, Worker: rf.Case, Workers: 1 << 30, Cases: rf.Case + 1, BudgetS: 300, TreeHash: treeHash()}
+		if rf.Race {
+			j.Sub = "race"
+		}
+		r, out, err := runWorker(bin, j, 4, b.tmp, "replay")
+		if err != nil {
+			fatal2("%v\n%s", err, tail(out, 40))
+		}
+		for _, v := range r.Violations {
+			if v.Crash {
+				fmt.Printf("VIOLATION property=%s replay=%s\n  the worker process died again on case %d: %s\n", rf.Property, abs, rf.Case, v.Signature)
+				return 1
+			}
+		}
+		fmt.Printf("verifctl: replay of %s: the process did not die this time (case %d)\n", abs, rf.Case)
+		return 0
+	}
 	r, out, err := runWorker(bin, j, 4, b.tmp, "replay")
 	if err != nil {
 		fatal2("%v\n%s", err, tail(out, 40))
@@ -637,6 +705,9 @@ func main() {
 	}
 	if r := os.Getenv("VERIF_REPO"); r != "" {
 		repoDir = r
+	}
+	if o := os.Getenv("VERIF_OUT_DIR"); o != "" {
+		outDir = o
 	}
 	switch os.Args[1] {
 	case "check":
